@@ -423,6 +423,12 @@ impl<'a> Digest<'a> {
             .unwrap_or(self.ev.len())
     }
 
+    /// the store was shut down and every simulated thread ran to its end: whatever was accepted
+    /// has had every chance to be processed, even if a stop() gave up after its timeout
+    pub fn drained(&self, s: usize) -> bool {
+        self.run.out.end == simrt::End::Complete && !self.stores[s].shutdowns.is_empty()
+    }
+
     pub fn store_name(&self, s: usize) -> &str {
         &self.stores[s].model.name
     }
